@@ -2,8 +2,8 @@ package props
 
 import (
 	"fmt"
-	"runtime"
 	"reflect"
+	"runtime"
 
 	"github.com/elastic/go-structform/gotype"
 
